@@ -1556,6 +1556,112 @@ def gen_write(lines):
 
 
 GENERATORS.append(("Write", gen_write))
+# ------------------------------------------------------------------ read.rs escape decoding of the two readers (C09, C05)
+def gen_readesc(lines):
+    """data of `parse_escape`, `ignore_escape`, `parse_unicode_escape` and `SliceRead::decode_hex_escape`:
+    escape letters, surrogate bounds, the pair-combining constants, the length of a hex group"""
+    t = strip_rust_comments(src("read.rs"))
+    B = r"b'(?:\\x[0-9a-fA-F]{2}|\\.|[^'\\])'"
+    lines.append("/-! ## `src/read.rs`: `parse_escape`, `ignore_escape`, `parse_unicode_escape`, `decode_hex_escape` -/")
+    body = fn_body(t, r"fn parse_escape\b[^{]*\{") or ""
+    arms = re.findall(r"(%s)\s*=>\s*scratch\.push\(\s*(%s)\s*\)\s*," % (B, B), body)
+    um = re.search(r"(%s)\s*=>\s*return\s+parse_unicode_escape\(\s*read\s*,\s*validate\s*,\s*scratch\s*\)\s*," % B, body)
+    dm = re.search(r"_\s*=>\s*return\s+error\(\s*read\s*,\s*ErrorCode::InvalidEscape\s*\)", body)
+    if not arms or not um or not dm or len(re.findall(r"=>", body)) != len(arms) + 2:
+        miss("readesc.parse_escape", "arms `b'x' => scratch.push(b'y')`, `b'u' => return parse_unicode_escape(..)`, `_ => return error(read, InvalidEscape)` not found")
+    lines.append("/-- `parse_escape`: the arms `b'X' => scratch.push(b'Y')` in source order as (X, Y); `_ => InvalidEscape` -/")
+    lines.append("def parseEscapeArms : List (UInt8 × UInt8) := [%s]" % ", ".join("(0x%02x, 0x%02x)" % (byte_lit(a), byte_lit(b)) for a, b in arms))
+    lines.append("/-- `parse_escape`: the byte of the arm `=> return parse_unicode_escape(read, validate, scratch)` -/")
+    lines.append("def parseEscapeUni : UInt8 := 0x%02x" % (byte_lit(um.group(1)) if um else 0))
+    body = fn_body(t, r"fn ignore_escape\b[^{]*\{") or ""
+    im = re.search(r"((?:%s\s*\|\s*)*%s)\s*=>\s*\{\s*\}" % (B, B), body)
+    iu = re.search(r"(%s)\s*=>\s*\{\s*tri!\(\s*read\.decode_hex_escape\(\)\s*\)\s*;\s*\}" % B, body)
+    idf = re.search(r"_\s*=>\s*\{\s*return\s+error\(\s*read\s*,\s*ErrorCode::InvalidEscape\s*\)\s*;\s*\}", body)
+    if not im or not iu or not idf or len(re.findall(r"=>", body)) != 3:
+        miss("readesc.ignore_escape", "arms `b'\"' | … => {}`, `b'u' => { tri!(read.decode_hex_escape()); }`, `_ => { return error(read, InvalidEscape); }` not found")
+    lines.append("/-- `ignore_escape`: the alternatives of the arm `… => {}`, and the byte of the arm that calls `decode_hex_escape` -/")
+    lines.append("def ignoreEscapeLetters : List UInt8 := [%s]" % ", ".join("0x%02x" % byte_lit(x) for x in re.findall(B, im.group(1) if im else "")))
+    lines.append("def ignoreEscapeUni : UInt8 := 0x%02x" % (byte_lit(iu.group(1)) if iu else 0))
+    body = fn_body(t, r"fn parse_unicode_escape\b[^{]*\{") or ""
+    N = r"(0x[0-9a-fA-F_]+|\d[\d_]*)"
+    g1 = re.search(r"if\s+validate\s*&&\s*n\s*>=\s*%s\s*&&\s*n\s*<=\s*%s\s*\{\s*return\s+error\(\s*read\s*,\s*ErrorCode::LoneLeadingSurrogateInHexEscape\s*\)" % (N, N), body)
+    g2 = re.search(r"if\s+n\s*<\s*%s\s*\|\|\s*n\s*>\s*%s\s*\{\s*push_wtf8_codepoint\(\s*n\s+as\s+u32\s*,\s*scratch\s*\)\s*;\s*return\s+Ok\(\(\)\)" % (N, N), body)
+    g3 = re.search(r"if\s+n2\s*<\s*%s\s*\|\|\s*n2\s*>\s*%s\s*\{\s*if\s+validate\s*\{\s*return\s+error\(\s*read\s*,\s*ErrorCode::LoneLeadingSurrogateInHexEscape\s*\)" % (N, N), body)
+    g4 = re.search(r"let\s+n\s*=\s*\(\(\(\(n1\s*-\s*%s\)\s*as\s+u32\)\s*<<\s*(\d+)\)\s*\|\s*\(n2\s*-\s*%s\)\s*as\s+u32\)\s*\+\s*%s\s*;" % (N, N, N), body)
+    p1 = re.search(r"if\s+tri!\(\s*peek_or_eof\(read\)\s*\)\s*==\s*(%s)\s*\{\s*read\.discard\(\)\s*;\s*\}\s*else\s*\{\s*return\s+if\s+validate\s*\{\s*read\.discard\(\)\s*;\s*error\(\s*read\s*,\s*ErrorCode::UnexpectedEndOfHexEscape\s*\)\s*\}\s*else\s*\{\s*push_wtf8_codepoint\(\s*n1\s+as\s+u32\s*,\s*scratch\s*\)\s*;\s*Ok\(\(\)\)" % B, body)
+    p2 = re.search(r"if\s+tri!\(\s*peek_or_eof\(read\)\s*\)\s*==\s*(%s)\s*\{\s*read\.discard\(\)\s*;\s*\}\s*else\s*\{\s*return\s+if\s+validate\s*\{\s*read\.discard\(\)\s*;\s*error\(\s*read\s*,\s*ErrorCode::UnexpectedEndOfHexEscape\s*\)\s*\}\s*else\s*\{\s*push_wtf8_codepoint\(\s*n1\s+as\s+u32\s*,\s*scratch\s*\)\s*;\s*parse_escape\(" % B, body)
+    for nm, g in (("trailing_guard", g1), ("not_leading", g2), ("second_not_trailing", g3), ("combine", g4), ("expect_backslash", p1), ("expect_u", p2)):
+        if not g: miss("readesc.parse_unicode_escape." + nm, "expression has changed shape")
+    iv = lambda g, k: int(g.group(k).replace("_", ""), 0) if g else 0
+    lines.append("/-- `parse_unicode_escape`: `validate && n >= A && n <= B` (a trailing surrogate first), `n < C || n > D` (not a leading")
+    lines.append("    surrogate), `n2 < E || n2 > F` (second group not a trailing surrogate) -/")
+    lines.append("def uniFirstTrailLo : Nat := 0x%04X" % iv(g1, 1))
+    lines.append("def uniFirstTrailHi : Nat := 0x%04X" % iv(g1, 2))
+    lines.append("def uniLeadLo : Nat := 0x%04X" % iv(g2, 1))
+    lines.append("def uniLeadHi : Nat := 0x%04X" % iv(g2, 2))
+    lines.append("def uniTrailLo : Nat := 0x%04X" % iv(g3, 1))
+    lines.append("def uniTrailHi : Nat := 0x%04X" % iv(g3, 2))
+    lines.append("/-- `((((n1 - G) as u32) << S) | (n2 - H) as u32) + K` -/")
+    lines.append("def uniPairSubLead : Nat := 0x%04X" % iv(g4, 1))
+    lines.append("def uniPairShift : Nat := %d" % iv(g4, 2))
+    lines.append("def uniPairSubTrail : Nat := 0x%04X" % iv(g4, 3))
+    lines.append("def uniPairBase : Nat := 0x%X" % iv(g4, 4))
+    lines.append("/-- the bytes a leading surrogate must be followed by (`peek_or_eof(read) == …`, twice) -/")
+    lines.append("def uniExpectBackslash : UInt8 := 0x%02x" % (byte_lit(p1.group(1)) if p1 else 0))
+    lines.append("def uniExpectU : UInt8 := 0x%02x" % (byte_lit(p2.group(1)) if p2 else 0))
+    sl = fn_body(t, r"impl<'a>\s*Read<'a>\s*for\s+SliceRead<'a>\s*\{") or ""
+    body = fn_body(sl, r"fn decode_hex_escape\b[^{]*\{") or ""
+    hm = re.search(r"match\s+self\.slice\[self\.index\.\.\]\s*\{\s*\[((?:\s*\w+\s*,)+)\s*\.\.\s*\]\s*=>\s*\{\s*self\.index\s*\+=\s*(\d+)\s*;", body)
+    he = re.search(r"_\s*=>\s*\{\s*self\.index\s*=\s*self\.slice\.len\(\)\s*;\s*error\(\s*self\s*,\s*ErrorCode::EofWhileParsingString\s*\)", body)
+    nb = len(re.findall(r"\w+", hm.group(1))) if hm else 0
+    if not hm or not he or nb != int(hm.group(2)):
+        miss("readesc.slice_decode_hex_escape", "`match self.slice[self.index..] { [a, b, c, d, ..] => { self.index += 4; … } _ => { self.index = self.slice.len(); error(self, EofWhileParsingString) } }` not found")
+    lines.append("/-- `SliceRead::decode_hex_escape`: number of binders of the slice pattern `[a, b, c, d, ..]` (= the `self.index += N`) -/")
+    lines.append("def sliceHexGroupLen : Nat := %d" % nb)
+    io = fn_body(t, r"impl<'de,\s*R>\s*Read<'de>\s*for\s+IoRead<R>\s*where\s*R:\s*io::Read,\s*\{") or ""
+    body = fn_body(io, r"fn decode_hex_escape\b[^{]*\{") or ""
+    pulls = re.findall(r"let\s+(\w+)\s*=\s*tri!\(\s*next_or_eof\(\s*self\s*\)\s*\)\s*;", body)
+    if not pulls or not re.search(r"match\s+decode_four_hex_digits\(\s*%s\s*\)" % r"\s*,\s*".join(pulls), body):
+        miss("readesc.io_decode_hex_escape", "`let a = tri!(next_or_eof(self)); … match decode_four_hex_digits(a, b, c, d)` not found")
+    lines.append("/-- `IoRead::decode_hex_escape`: number of `tri!(next_or_eof(self))` pulls before `decode_four_hex_digits` -/")
+    lines.append("def ioHexGroupPulls : Nat := %d" % len(pulls))
+
+
+GENERATORS.append(("ReadEsc", gen_readesc))
+
+# ------------------------------------------------------------------ the kind of an Io error (C13: "carrying that error's kind")
+def gen_iokind(lines):
+    t = src("error.rs")
+    body = fn_body(t, r"pub fn io\(error: io::Error\) -> Self\s*\{") or ""
+    stores = re.search(r"Error\s*\{\s*err:\s*Box::new\(\s*ErrorImpl\s*\{\s*code:\s*ErrorCode::Io\(error\)\s*,\s*line:\s*0\s*,\s*column:\s*0\s*,?\s*\}\s*\)\s*,?\s*\}", body)
+    if not stores: miss("iokind.error_io", "`Error::io(error)` = `Error { err: Box::new(ErrorImpl { code: ErrorCode::Io(error), line: 0, column: 0 }) }` not found")
+    lines.append("/-- `Error::io(error)` stores the very `io::Error` it is given: `code: ErrorCode::Io(error), line: 0, column: 0` -/")
+    lines.append("def errorIoStoresError : Bool := %s" % ("true" if stores else "false"))
+    body = fn_body(t, r"pub fn io_error_kind\(&self\) -> Option<ErrorKind>\s*\{") or ""
+    inner = re.search(r"if let ErrorCode::Io\((\w+)\) = &self\.err\.code \{\s*Some\(\1\.kind\(\)\)\s*\} else \{\s*None\s*\}", body)
+    if not inner: miss("iokind.io_error_kind", "`if let ErrorCode::Io(io_error) = &self.err.code { Some(io_error.kind()) } else { None }` not found")
+    lines.append("/-- `Error::io_error_kind`: `if let ErrorCode::Io(io_error) = &self.err.code { Some(io_error.kind()) } else { None }` -/")
+    lines.append("def ioErrorKindReturnsInner : Bool := %s" % ("true" if inner else "false"))
+    body = fn_body(t, r"pub fn classify\(&self\) -> Category\s*\{") or ""
+    cio = re.search(r"ErrorCode::Io\(_\)\s*=>\s*Category::Io", body)
+    if not cio: miss("iokind.classify_io", "`ErrorCode::Io(_) => Category::Io` not found in classify")
+    lines.append("/-- `classify`: `ErrorCode::Io(_) => Category::Io` -/")
+    lines.append("def classifyIoIsIo : Bool := %s" % ("true" if cio else "false"))
+    r = src("read.rs")
+    io = fn_body(r, r"impl<'de,\s*R>\s*Read<'de>\s*for\s+IoRead<R>\s*where\s*R:\s*io::Read,\s*\{") or ""
+    n = 0
+    for f in ["next", "peek"]:
+        b = fn_body(io, r"fn %s\(&mut self\) -> Result<Option<u8>>\s*\{" % f) or ""
+        arms = re.findall(r"Some\(Err\((\w+)\)\)\s*=>\s*Err\(Error::io\(\1\)\)", b)
+        others = re.findall(r"Some\(Err\(", b)
+        if len(arms) != 1 or len(others) != 1:
+            miss("iokind.ioread_" + f, "`Some(Err(err)) => Err(Error::io(err))` is not the one arm for a failed read in IoRead::%s" % f)
+        n += len(arms)
+    lines.append("/-- `IoRead::next` / `IoRead::peek`: arms `Some(Err(err)) => Err(Error::io(err))` (one each: the only thing done with a failed read) -/")
+    lines.append("def ioReadErrArms : Nat := %d" % n)
+
+
+GENERATORS.append(("IoKind", gen_iokind))
 
 
 def main():
